@@ -138,4 +138,11 @@ def check(prog: Program, rep):
     plumb.whole_flow_shortcuts_rule(prog, RuleProxy(rep, "C05.R10"), "C10.R8")
     plumb.flow_safe_override_rule(prog, rep, "C05.R10")
     plumb.percentile_rules(prog, RuleProxy(rep, "C05.R10"), "C10.R8")
-
+    # the default safety pruning of the cyclic models reads nodes_reachable / nodes_reaching: their caches answer for the graph (C17.R1, C17.R2)
+    from rules import c17 as _c17x
+    from sa.alias import AliasModel as _AMx
+    from rules.common import RuleProxy as _RPx
+    _c17x.cache_ownership(prog, _RPx(rep, "C05.R10"), "C17.R1")
+    _c17x.query_purity(prog, _RPx(rep, "C05.R10"), "C17.R2", _AMx(prog))
+    from rules.plumb import constraints_as_safe_sequences_rule
+    constraints_as_safe_sequences_rule(prog, rep, "C05.R10")
